@@ -6,6 +6,7 @@ mod util;
 mod c03;
 mod c12;
 mod c16;
+mod lower;
 mod track;
 
 #[global_allocator]
@@ -23,6 +24,7 @@ fn main() {
         "c03-record" => c03::record(rest),
         "c12-replay" => c12::replay(rest),
         "c12-record" => c12::record(rest),
+        "lower" => lower::lower(rest),
         "c16-utf8" => c16::utf8(rest),
         "c16-views" => c16::views(rest),
         other => {
